@@ -88,17 +88,28 @@ def run(ctx):
 
     # ---- R3 expiry path
     r = ctx.rule("R3", "expiry cancels the request and substitutes Failure(RequestTimedOutError); otherwise the result passes", 2, "C+D")
-    fa = [x for x in walk_body_shallow(to.body) if isinstance(x, ast.Assign) and isinstance(x.value, ast.Call) and
-          call_name(x.value) == "Failure"]
-    ok = len(fa) == 1 and fa[0].value.args and isinstance(fa[0].value.args[0], ast.Call) and call_name(fa[0].value.args[0]) == \
-        "RequestTimedOutError" and any(isinstance(x, ast.Nonlocal) and unparse(fa[0].targets[0]) in x.names for x in walk_body_shallow(to.body)) \
-        and any(call_recv(x) == dreq for x in calls_in(to, "cancel"))
+    # the expiry closure records Failure(RequestTimedOutError(...)) in a cell it shares with the on-both handler - a
+    # `nonlocal` name, or a list of the enclosing function it appends to - and cancels the request
+    tfs = [x for x in walk_body_shallow(to.body) if isinstance(x, ast.Call) and call_name(x) == "Failure" and x.args and isinstance(x.args[0], ast.Call)
+           and call_name(x.args[0]) == "RequestTimedOutError"]
+    cell, set_facts, unset_facts, cell_reads = None, [], [], ()
+    for x in walk_body_shallow(to.body):
+        if isinstance(x, ast.Assign) and tfs and (x.value is tfs[0]) and isinstance(x.targets[0], ast.Name) and any(
+                isinstance(y, ast.Nonlocal) and x.targets[0].id in y.names for y in walk_body_shallow(to.body)):
+            cell = x.targets[0].id
+            set_facts, unset_facts, cell_reads = [("%s is None" % cell, False), (cell, True)], [("%s is None" % cell, True), (cell, False)], (cell,)
+        if isinstance(x, ast.Call) and call_name(x) == "append" and tfs and x.args and x.args[0] is tfs[0] and isinstance(x.func.value, ast.Name):
+            c_ = x.func.value.id
+            outer_defs = [y for y in walk_body_shallow(w.body) if isinstance(y, ast.Assign) and unparse(y.targets[0]) == c_ and isinstance(y.value, ast.List) and not y.value.elts]
+            if outer_defs:
+                cell = c_
+                set_facts, unset_facts, cell_reads = [(cell, True), ("not %s" % cell, False)], [(cell, False), ("not %s" % cell, True)], ("%s[0]" % cell, "%s[-1]" % cell)
+    ok = len(tfs) == 1 and cell is not None and any(call_recv(x) == dreq for x in calls_in(to, "cancel"))
     r.check(ok, "%s#expiry" % to.qname, "expiry does not cancel the request and record a timed-out Failure", where(to, to.node),
             "timed-out request fails with CancelledError or never fails")
-    fv = unparse(fa[0].targets[0]) if fa else "failure"
     rets = return_cases(ctx, cb)
-    ok = any(norm(e_) == fv and ("%s is None" % fv, False) in f_ for n_, f_, e_ in rets) and any(
-        norm(e_) == cb.first_param() and ("%s is None" % fv, True) in f_ for n_, f_, e_ in rets) and len(rets) == 2
+    ok = cell is not None and any(norm(e_) in cell_reads and any(sf in f_ for sf in set_facts) for n_, f_, e_ in rets) and any(
+        norm(e_) == cb.first_param() and any(uf in f_ for uf in unset_facts) for n_, f_, e_ in rets) and len(rets) == 2
     r.check(ok, "%s#substitution" % cb.qname, "on-both handler does not return the timed-out failure when set, else its input",
             where(cb, cb.node), "reply dropped / timeout reported as cancellation")
 
